@@ -78,6 +78,10 @@ add('C11', 'E-RUN+E-SQLDRV+E-CHSQL+E-REF(reftraceql)', 'translation_validation',
     'Generated TraceQL scripts (nested and/or with parentheses, repeated terms, span./resource./dot prefixes, every operator, aggregators with units, chains of 2-4 selectors, long decimal literals) are parsed back by qryn\'s parser and sent through the real read path (GET /api/search and the v2 tags/values routes -> controller -> service -> planners -> simple and complex request processors, single-node and cluster tables). Every statement qryn issues is executed by the reference ClickHouse-subset interpreter over tables filled the way the writer fills them (missing, numeric and non-numeric values, spans on the window edges); the returned trace and span sets, the limit cut and its recency order are compared with an independent direct TraceQL evaluator under every reading the property text leaves open; a statement ClickHouse would reject, a planner panic and a non-JSON answer are violations by themselves. Violations are minimised and filed under the minimal failing shape; for {A} && {B} the answer is additionally compared with what the implemented row intersection gives, so that known defect has one key.',
     'Trusted: E-CHSQL (self-tested on a corpus of captured statements), the direct evaluator engines/reftraceql written from the property text, the table filling. Cases on which the readings disagree are probes (counted, not judged). Chains of three or more selectors never execute (known finding), so their semantics are not observed.',
     'runtime monitoring: translation validation by executing the recorded SQL against a reference interpreter and comparing with a direct evaluator', 'DESIGN §3 C11')
+add('C13', 'E-RUN+E-SQLDRV+E-CHSQL', 'exploration',
+    'The real reader (router -> controllers -> services -> planners) runs in-process on a scripted database/sql driver whose handler executes every statement with the reference interpreter over generated tables holding probe rows (at from, from+1ns, middle, to-1, indexed under the dates the writer stores), sentinel rows (1 ns, 1 s, one range bucket, 15 s, 1 day, 31 days outside on both sides, with own and shared keys), grey rows inside the widening the property allows, and rows of the other signal (one sharing a probe fingerprint). Two observers: the HTTP response (no sentinel / other-signal marker may appear, every selected probe must; the answer must equal the answer on the database minus sentinel data rows) and the interpreter\'s scan monitor (every base-table scan: no sentinel or other-type row admitted by a data-table scan, date bounds read from the WHERE must cover the probe index rows). 76 endpoint positions (Loki query_range/instant/labels/values/series/tail, Prometheus labels/values/series/query/query_range and CLokiQuerier.Select with 29 hint functions, Tempo trace/search/TraceQL/tags/values v1+v2, Pyroscope types/labels/series/selects/render-diff) x windows crossing midnight, month ends and sub-second ones x single-node and cluster layouts x reader zones UTC / America/New_York / Asia/Tokyo (one child process per zone) and writer zones for trace tag rows.',
+    'Trusted: E-CHSQL incl. its per-scan admitted-row monitor, the row generators (dates as the writer stores them), the per-endpoint window semantics listed as assumptions in the evidence. A data bound narrower than the window is reported as probe-missing/data-bound (assumption recorded). Loki tail: sentinel and scan verdicts only.',
+    'runtime monitoring: sentinel/probe rows with a scan-level admission monitor inside the reference interpreter and end-to-end response comparison', 'DESIGN §3 C13')
 add('C17', 'E-RUN+E-SQLDRV+E-CHSQL+upstream promql engine', 'exploration',
     'Four monitors: (1) cursor model check - random Seek/Next/At sequences on model.Series iterators against a sequential model of the chunkenc.Iterator contract; (2) Prometheus matcher sets and Pyroscope selectors through the real transpilers, SQL executed by E-CHSQL over generated index tables, selected series compared with Prometheus matcher semantics; (3) CLokiQuerier.Select end to end over the scripted driver (each series once, own labels, samples in range ascending); (4) /api/v1/query_range and /api/v1/query through the real router vs the upstream promql engine over an in-memory reference storage holding the same samples.',
     'Trusted: E-CHSQL, the Prometheus matcher evaluator (cross-checked against labels.Matcher), the pinned upstream promql engine as reference; samples exactly on a window\'s left edge are probes.',
